@@ -45,7 +45,7 @@ Proof.
     destruct (pexec_adds (fun nd : N * expr => pacts f (snd nd)) fst ds (fun a S' => IH (snd a) S') [] S) as [c' Hc].
     rewrite Hc, IH. reflexivity.
   - (* EFun *) cbn. change (fold_left pstep ?l ?s) with (pexec l s). rewrite !pexec_app.
-    destruct (pexec_names ps [] S) as [c' Hc]. rewrite Hc, IH. reflexivity.
+    destruct (pexec_names (map fst ps) [] S) as [c' Hc]. rewrite Hc, IH. reflexivity.
   - (* ECall *) apply pexec_flat_map. intros a S'. apply IH.
   - (* ECallN *) apply pexec_flat_map. intros a S'. apply IH.
 Qed.
